@@ -140,6 +140,10 @@ func NewManager(cfg *config.Config, statsCollector stats.Collector) (*Manager, e
 		return nil, fmt.Errorf("failed to recover from WAL: %w", err)
 	}
 
+	// Whatever the log holds now may exist nowhere else: WAL retention keeps all of it
+	// until a flush has moved it into table files
+	m.getWAL().SetUnflushedFrom(1)
+
 	// Start background flush goroutine
 	go m.backgroundFlush()
 
@@ -466,6 +470,9 @@ func (m *Manager) FlushMemTables() error {
 		tables := m.memTablePool.GetMemTables()
 		if len(tables) > 0 && tables[0].ApproximateSize() > 0 {
 			// In testing, we might want to force flush the active table too
+			// What the table holds now is what the flush is certain to write out
+			next := tables[0].GetNextSequenceNumber()
+
 			// Create a new WAL file for future writes
 			if err := m.rotateWAL(); err != nil {
 				m.stats.TrackError("wal_rotate_error")
@@ -475,6 +482,11 @@ func (m *Manager) FlushMemTables() error {
 			if err := m.flushMemTable(tables[0]); err != nil {
 				m.stats.TrackError("memtable_flush_error")
 				return fmt.Errorf("failed to flush active MemTable: %w", err)
+			}
+
+			// See below: WAL retention may let go of the log files under these entries
+			if next > 1 {
+				m.getWAL().SetUnflushedFrom(next - 1)
 			}
 
 			return nil
@@ -502,6 +514,13 @@ func (m *Manager) FlushMemTables() error {
 	m.mu.Lock()
 	m.immutableMTs = m.immutableMTs[len(immutables):]
 	m.mu.Unlock()
+
+	// Everything up to the newest entry of the flushed tables is in table files now
+	// (immutable tables are flushed oldest first): WAL retention may let go of the
+	// log files below it, and of no others
+	if next := immutables[len(immutables)-1].GetNextSequenceNumber(); next > 1 {
+		m.getWAL().SetUnflushedFrom(next - 1)
+	}
 
 	// Track flush count
 	m.stats.TrackFlush()
@@ -619,6 +638,7 @@ func (m *Manager) rotateWAL() error {
 	// Continue the sequence numbering of the old WAL in the new one
 	if currentWAL != nil {
 		newWAL.UpdateNextSequence(currentWAL.GetNextSequence())
+		newWAL.SetUnflushedFrom(currentWAL.UnflushedFrom())
 
 		// Whoever observes the log (replication) has to follow it to the new object
 		currentWAL.HandOverObservers(newWAL)
